@@ -427,55 +427,62 @@ def rule_homo(F, R):
                 fail_msg="concatenation [x,y,z] is encoded as %r (only emitted: %s; missing: %s)" % (em.text, o1, o2))
 
 
-def context_table(F):
-    """g(superposition, position) = the context the encoder passes to a nested branch (C07.ctx)."""
-    it, inst = encode_item(F)
-    table = {}
-    for sup in SUPERPOSITIONS:
-        for pos in POSITIONS:
-            for kind in ("alt", "rep"):
-                seen = []
-
-                def stub(I, a, fn, e, seen=seen):
-                    seen.append(strip(a[1]))
-                    return UNIT
-                child = T.branch(kind, [T.leaf("lit", "x")], "probe")
-                toks, ix = arrange(child, pos)
-                I = Interp(F, {"encode::encode": stub})
-                tree = toks[0] if len(toks) == 1 else T.branch("cat", toks, "top")
-                I.explore(lambda: I.call_item(it, [Adt(GROUPING, "Capture", {}), position_value(sup), Ref(Place(Cell(StrB()))),
-                                                   Ref(Place(Cell(tree)))], inst=inst))
-                vals = []
-                for v in seen:
-                    if isinstance(v, Adt) and v.variant == "Some":
-                        vals.append(strip(v.fields["0"]).variant)
-                    elif isinstance(v, Adt) and v.variant == "None":
-                        vals.append(None)
-                    else:
-                        vals.append("?")
-                table[(sup, pos, kind)] = vals
-    return table
-
-
 def rule_ctx(F, R):
+    """C07.ctx: the context a branch passes to its sub-expression preserves (has left neighbour, has right
+    neighbour) at every nesting level.  Decided on the emitted text (no interception of the recursion, so a
+    renamed or extracted helper is immaterial): a tree wildcard placed at every position of a sub-expression
+    nested in a branch at every position under every enclosing context must be encoded with the reference
+    language of the combined neighbourhood."""
     where = where_encode(F)
-    tab = context_table(F)
+    H = lambda n: "⟦esc:text_%s⟧" % n
     n = 0
-    for (sup, pos, kind), vals in sorted(tab.items(), key=str):
-        n += 1
-        inst = "g(%s,%s)/%s" % (sup, pos, kind)
-        if len(vals) != 1 or vals[0] == "?":
-            R.fail("C07.ctx", inst, "the nested encode call was observed %d times with context %r" % (len(vals), vals), where)
-            continue
-        g = vals[0]
-        got = (hl(g), hr(g))
-        want = alpha(sup, pos)
-        R.check(got == want, "C07.ctx", inst, "context %s has (left,right) neighbours %s" % (g, want), where,
-                fail_msg="a branch at position %s inside context %s passes context %s to its sub-expression, i.e. (has left "
-                         "neighbour, has right neighbour) = %s, but the sub-expression really has %s: the tree-wildcard form "
-                         "chosen inside no longer depends on all enclosing levels, so wrapping an expression in braces changes "
-                         "what it matches (`{.A{**/A}}ba` vs `.A{**/A}ba`)" % (pos, sup, g, got, want))
-    R.floor("C07.ctx", "context cells", n, 40)
+    for sup, pos, p2 in itertools.product(SUPERPOSITIONS, POSITIONS, ("First", "Middle", "Last")):
+        for kind in ("alt", "rep"):
+            for rooted in (False, True):
+                tree = T.leaf("tree-rooted" if rooted else "tree")
+                if p2 == "First":
+                    body, inner_l, inner_r = [tree, T.leaf("lit", "I2")], "", H("I2")
+                elif p2 == "Middle":
+                    body, inner_l, inner_r = [T.leaf("lit", "I0"), tree, T.leaf("lit", "I2")], H("I0"), H("I2")
+                else:
+                    body, inner_l, inner_r = [T.leaf("lit", "I0"), tree], H("I0"), ""
+                inner = T.branch("cat", body, "body")
+                tok = T.branch("alt", [inner], "probe") if kind == "alt" else T.branch("rep", [inner], "probe", lower=1, upper=1)
+                toks, ix = arrange(tok, pos)
+                h = (hl(sup) or hl(pos) or hl(p2), hr(sup) or hr(pos) or hr(p2))
+                if (not h[0]) and h[1] and rooted:
+                    # rooted tree wildcard with nothing before and something after it: the form itself is decided by
+                    # C01.tree (known finding on the pinned tree); it does not depend on the nesting
+                    continue
+                ref = ""
+                for i, t in enumerate(toks):
+                    if i == ix:
+                        ref += "(?:%s(?:%s)%s)" % (inner_l, tree_reference(h[0], h[1], rooted), inner_r)
+                    else:
+                        ref += H(t.tag.split(":")[1])
+                for em in emit(F, "Capture", sup, toks):
+                    n += 1
+                    inst = "nested-tree/%s/sup=%s/pos=%s/inner=%s/rooted=%s" % (kind, sup, pos, p2, rooted)
+                    if em.text is None:
+                        R.fail("C07.ctx", inst, "unanalysable emission: %r" % (em.case.result,), where)
+                        continue
+                    try:
+                        n1, p1 = rx.parse(em.text, {"i": False, "s": True})
+                        n2, pr = rx.parse(ref, {"i": False, "s": True})
+                        extra = tuple(sorted(set("H:" + x for x in p1.holes + pr.holes)))
+                        eq, o1, o2 = rx.compare(rx.to_dfa(n1, None, extra), rx.to_dfa(n2, None, extra))
+                    except rx.RxError as e:
+                        R.fail("C07.ctx", inst, "emitted text %r not understood: %s" % (em.text, e), where)
+                        continue
+                    if eq:
+                        R.ok("C07.ctx", inst, "nested tree wildcard has the language of neighbourhood %s" % (h,), where, sample=(n % 61 == 0))
+                    else:
+                        R.fail("C07.ctx", inst + ("/extra=%s/missing=%s" % (_w(rx.show(o1)), _w(rx.show(o2)))),
+                               "a tree wildcard at position %s of a sub-expression nested in a %s at position %s under context %s is encoded as %r; "
+                               "with (left neighbour, right neighbour) = %s its language should be %r (extra: %s, missing: %s): the form "
+                               "chosen inside a branch must depend on all enclosing levels (`{.A{**/A}}ba` vs `.A{**/A}ba`)" % (
+                                   p2, kind, pos, sup, em.text, h, ref, rx.show(o1), rx.show(o2)), where)
+    R.floor("C07.ctx", "nested tree cells", n, 200)
 
 
 def rule_groups(F, R):
@@ -538,25 +545,42 @@ def rule_groups(F, R):
                         h = alpha(sup, pos)
                         check_tree_capture(R, inst, frag, node, groups[0], h, where)
     R.floor("C04.agree", "capture cases", n, 300)
-    # top level passes Capture, recursion passes NonCapture
-    it, inst_id = encode_item(F)
-    seen = []
-
-    def stub(I2, a, fn, e):
-        seen.append(strip(a[0]).variant)
-        return UNIT
-    I2 = Interp(F, {"encode::encode": stub})
-    comp = F.find("encode::compile")
-    cinst = (F.instances_of(comp, "token::Token<'_, ()>") or F.instances_of(comp))[0]
-    I2.explore(lambda: I2.call_item(comp, [Ref(Place(Cell(T.leaf("lit", "x"))))], inst=cinst))
-    R.check(bool(seen) and set(seen) == {"Capture"}, "C04.nested", "compile->encode", "the top-level call uses Grouping::Capture", comp.where(),
-            fail_msg="compile calls encode with grouping %r" % seen)
-    for kind in ("alt", "rep"):
-        seen[:] = []
-        tok = T.branch(kind, [T.leaf("lit", "x")])
-        I2.explore(lambda: I2.call_item(it, [Adt(GROUPING, "Capture", {}), none(), Ref(Place(Cell(StrB()))), Ref(Place(Cell(tok)))], inst=inst_id))
-        R.check(bool(seen) and set(seen) == {"NonCapture"}, "C04.nested", "encode->encode/" + kind, "recursive calls use Grouping::NonCapture", where,
-                fail_msg="the recursive call for %s uses grouping %r" % (kind, seen))
+    # nesting: whatever is nested inside a top-level token never adds a capturing group (decided on the emitted
+    # text, not by intercepting the recursion)
+    L = lambda nme: T.leaf("lit", nme)
+    nested = {
+        "alt[class]": T.branch("alt", [T.leaf("class", "k"), L("b")]),
+        "alt[alt[one]]": T.branch("alt", [T.branch("alt", [T.leaf("one"), L("b")]), L("c")]),
+        "rep[zom lit]": T.branch("rep", [T.branch("cat", [T.leaf("zom"), L("b")])], lower=1, upper=2),
+        "rep[alt[lit tree-rooted lit]]": T.branch("rep", [T.branch("alt", [T.branch("cat", [L("a"), T.leaf("tree-rooted"), L("b")]), L("c")])], lower=1, upper=2),
+        "alt[tree lit]": T.branch("alt", [T.branch("cat", [T.leaf("tree"), L("a")]), L("b")]),
+        "alt[lit tree-rooted]": T.branch("alt", [T.branch("cat", [L("a"), T.leaf("tree-rooted")]), L("b")]),
+        "alt[rep[class-neg]]": T.branch("alt", [T.branch("rep", [T.leaf("class-neg", "k")], lower=2, upper=2), L("b")]),
+    }
+    for name, tok in nested.items():
+        for g, pos in itertools.product(GROUPINGS, POSITIONS):
+            for frag, em in fragment_for(F, g, None, pos, tok):
+                inst = "nested/%s/%s/pos=%s" % (name, g, pos)
+                if frag is None:
+                    R.fail("C04.nested", inst, "unanalysable emission: %r" % (em.case.result,), where)
+                    continue
+                try:
+                    node, p = rx.parse(frag, {"i": False, "s": True})
+                except rx.RxError as e:
+                    R.fail("C04.nested", inst, "emitted text %r not understood: %s" % (frag, e), where)
+                    continue
+                ncap = len(rx.capturing_groups(node))
+                want = 1 if g == "Capture" else 0
+                R.check(ncap == want, "C04.nested", inst, "%d capturing group(s): nested tokens never capture" % want, where,
+                        fail_msg="the top-level token %s is encoded as %r with %d capturing group(s), expected %d: a nested token that "
+                                 "captures shifts every later capture index" % (name, frag, ncap, want))
+    for text, c in compile_pattern(F, [T.leaf("zom"), L("x"), T.branch("alt", [T.leaf("one"), L("y")])]):
+        if text is None:
+            R.fail("C04.nested", "compile", "no pattern reaches Regex::new", where)
+            continue
+        node, p = rx.parse(text)
+        R.check(len(rx.capturing_groups(node)) == 2, "C04.nested", "compile", "top-level capturing tokens capture (2 groups for `*x{?,y}`)", where,
+                fail_msg="compile encodes [*, x, {?,y}] as %r with %d capturing groups, expected 2" % (text, len(rx.capturing_groups(node))))
 
 
 def check_tree_capture(R, inst, frag, node, group, h, where):
